@@ -421,4 +421,17 @@ def templates(tier="quick"):
     T.append(scenario("missing_source/fresh", "template", [v], ops=mops, init=[], depth=2, tags=["missing-source", "fresh"]))
     T.append(scenario("missing_source/built", "template", [v], ops=mops, init=[mb], depth=d, tags=["missing-source", "built"]))
 
+    # T32b the same for a source that only an (existing, up-to-date) dyndep file names as an implicit input
+    v = Variant("v0", [Stmt("a", ex=["s"]), Stmt("e", ex=["w"], oo=["dd"], dyndep="dd", extra_reads=["gsrc"]), Stmt("top", ex=["a", "e"])])
+    mops = [{"op": "rm", "path": "gsrc", "label": "rm source gsrc"}, {"op": "edit", "path": "w", "label": "edit w"},
+            {"op": "edit", "path": "s", "label": "edit s"},
+            {"op": "write", "path": "gsrc", "content": "gsrc-back\n", "label": "restore gsrc"}]
+    mb = len(mops)
+    mops += [ninja_op(j=1), ninja_op(j=2, k=0), ninja_op(targets=["e"], j=1), ninja_op(targets=["a"], j=1)]
+    ddf = {"dd": _ddt([("e", [], ["gsrc"], False)])}
+    T.append(scenario("missing_source_named_by_dyndep_file/fresh", "template", [v], files=ddf, ops=mops, init=[], depth=2,
+                      tags=["missing-source", "dyndep", "fresh"]))
+    T.append(scenario("missing_source_named_by_dyndep_file/built", "template", [v], files=ddf, ops=mops, init=[mb], depth=min(d, 3),
+                      tags=["missing-source", "dyndep", "built"]))
+
     return T
